@@ -46,6 +46,8 @@ pub proof fn lemma_mask_remove<A>(s: Seq<A>, keep: Seq<bool>, k: int)
     }
 }
 
+pub assume_specification<T> [<T as core::convert::From<T>>::from] (t: T) -> (r: T) ensures r == t;
+
 // ---- heapless::Vec<T, N> -------------------------------------------------------------
 // Assumed contract on a dependency: a sequence of at most N elements.  `at`/`at_mut`
 // stand for indexing through the iterators that rule X16 turns into index loops;
@@ -919,6 +921,111 @@ pub proof fn lemma_first_byte_step(r: Seq<RetainedPacket>, n: int)
         }
     }
 }
+pub open spec fn prio(s: SendState, in_progress: bool) -> bool {
+    if in_progress { st_in_progress(s) } else { st_fresh(s) }
+}
+/// index of the first entry with the wanted priority (len if none)
+pub open spec fn ctl_idx(c: Seq<PendingControl>, ip: bool) -> int decreases c.len() {
+    if c.len() == 0 { 0 } else if prio(c[0].state, ip) { 0 } else { 1 + ctl_idx(c.subrange(1, c.len() as int), ip) }
+}
+pub open spec fn rel_idx(c: Seq<PendingRelease>, ip: bool) -> int decreases c.len() {
+    if c.len() == 0 { 0 } else if prio(c[0].state, ip) { 0 } else { 1 + rel_idx(c.subrange(1, c.len() as int), ip) }
+}
+pub open spec fn ret_idx(c: Seq<RetainedPacket>, ip: bool) -> int decreases c.len() {
+    if c.len() == 0 { 0 } else if prio(c[0].state, ip) { 0 } else { 1 + ret_idx(c.subrange(1, c.len() as int), ip) }
+}
+pub proof fn lemma_ctl_idx(c: Seq<PendingControl>, ip: bool, k: int)
+    requires 0 <= k < c.len(), prio(c[k].state, ip), forall|j: int| 0 <= j < k ==> !prio((#[trigger] c[j]).state, ip),
+    ensures ctl_idx(c, ip) == k
+    decreases c.len()
+{
+    if k > 0 {
+        let t = c.subrange(1, c.len() as int);
+        assert(!prio(c[0].state, ip));
+        assert(forall|j: int| 0 <= j < k - 1 ==> (#[trigger] t[j]) == c[j + 1]);
+        lemma_ctl_idx(t, ip, k - 1);
+    }
+}
+pub proof fn lemma_ctl_idx_none(c: Seq<PendingControl>, ip: bool)
+    requires forall|j: int| 0 <= j < c.len() ==> !prio((#[trigger] c[j]).state, ip),
+    ensures ctl_idx(c, ip) == c.len()
+    decreases c.len()
+{
+    if c.len() > 0 {
+        let t = c.subrange(1, c.len() as int);
+        assert(!prio(c[0].state, ip));
+        assert(forall|j: int| 0 <= j < t.len() ==> (#[trigger] t[j]) == c[j + 1]);
+        lemma_ctl_idx_none(t, ip);
+    }
+}
+pub proof fn lemma_rel_idx(c: Seq<PendingRelease>, ip: bool, k: int)
+    requires 0 <= k < c.len(), prio(c[k].state, ip), forall|j: int| 0 <= j < k ==> !prio((#[trigger] c[j]).state, ip),
+    ensures rel_idx(c, ip) == k
+    decreases c.len()
+{
+    if k > 0 {
+        let t = c.subrange(1, c.len() as int);
+        assert(!prio(c[0].state, ip));
+        assert(forall|j: int| 0 <= j < k - 1 ==> (#[trigger] t[j]) == c[j + 1]);
+        lemma_rel_idx(t, ip, k - 1);
+    }
+}
+pub proof fn lemma_rel_idx_none(c: Seq<PendingRelease>, ip: bool)
+    requires forall|j: int| 0 <= j < c.len() ==> !prio((#[trigger] c[j]).state, ip),
+    ensures rel_idx(c, ip) == c.len()
+    decreases c.len()
+{
+    if c.len() > 0 {
+        let t = c.subrange(1, c.len() as int);
+        assert(!prio(c[0].state, ip));
+        assert(forall|j: int| 0 <= j < t.len() ==> (#[trigger] t[j]) == c[j + 1]);
+        lemma_rel_idx_none(t, ip);
+    }
+}
+pub proof fn lemma_ret_idx(c: Seq<RetainedPacket>, ip: bool, k: int)
+    requires 0 <= k < c.len(), prio(c[k].state, ip), forall|j: int| 0 <= j < k ==> !prio((#[trigger] c[j]).state, ip),
+    ensures ret_idx(c, ip) == k
+    decreases c.len()
+{
+    if k > 0 {
+        let t = c.subrange(1, c.len() as int);
+        assert(!prio(c[0].state, ip));
+        assert(forall|j: int| 0 <= j < k - 1 ==> (#[trigger] t[j]) == c[j + 1]);
+        lemma_ret_idx(t, ip, k - 1);
+    }
+}
+pub proof fn lemma_ret_idx_none(c: Seq<RetainedPacket>, ip: bool)
+    requires forall|j: int| 0 <= j < c.len() ==> !prio((#[trigger] c[j]).state, ip),
+    ensures ret_idx(c, ip) == c.len()
+    decreases c.len()
+{
+    if c.len() > 0 {
+        let t = c.subrange(1, c.len() as int);
+        assert(!prio(c[0].state, ip));
+        assert(forall|j: int| 0 <= j < t.len() ==> (#[trigger] t[j]) == c[j + 1]);
+        lemma_ret_idx_none(t, ip);
+    }
+}
+/// the step `next_step` hands out for one priority class: first match in list order
+/// control, release, retained
+pub open spec fn step_for(o: Outbound, ip: bool) -> Option<OutboundStep> {
+    let c = o.pending_control@; let l = o.pending_release@; let r = o.retained@;
+    let kc = ctl_idx(c, ip); let kl = rel_idx(l, ip); let kr = ret_idx(r, ip);
+    if kc < c.len() {
+        Some(OutboundStep::Control(ControlStep { action: c[kc].action, state: c[kc].state }))
+    } else if kl < l.len() {
+        Some(OutboundStep::Release(ReleaseStep { packet_id: l[kl].packet_id, reason: l[kl].reason, state: l[kl].state }))
+    } else if kr < r.len() {
+        Some(OutboundStep::Retained(RetainedStep { packet_id: r[kr].packet_id, offset: r[kr].offset, len: r[kr].len, state: r[kr].state }))
+    } else { None }
+}
+/// in-progress entries first, then fresh ones
+pub open spec fn next_step_spec(o: Outbound) -> Option<OutboundStep> {
+    match step_for(o, true) { Some(s) => Some(s), None => step_for(o, false) }
+}
+pub open spec fn fresh_ctl(c: PendingControl) -> PendingControl { PendingControl { action: c.action, state: SendState::Write { written: 0 } } }
+pub open spec fn fresh_rel(c: PendingRelease) -> PendingRelease { PendingRelease { state: SendState::Write { written: 0 }, ..c } }
+pub open spec fn fresh_ret(c: RetainedPacket) -> RetainedPacket { RetainedPacket { state: SendState::Write { written: 0 }, ..c } }
 /// a compacted arena: offsets are the prefix sums and `used` is the total
 pub open spec fn compacted(o: Outbound) -> bool {
     &&& forall|i: int| 0 <= i < o.retained@.len() ==> (#[trigger] o.retained@[i]).offset == prefix_sum(o.retained@, i)
@@ -1340,13 +1447,13 @@ fn retain_packet(
         same_queues(*final(self), *old(self)) && bv(*final(self)) == bv(*old(self)),
         wf(*final(self)),
 {
-        (match self.retained
+        (match (match self.retained
             .push(RetainedPacket {
                 packet_id,
                 offset,
                 len,
                 state: SendState::Write { written: 0 },
-            }) { Ok(__v) => Ok(__v), Err(_) => Err(ProtocolError::InflightMetadataExhausted) })?;
+            }) { Ok(__v) => Ok(__v), Err(_) => Err(ProtocolError::InflightMetadataExhausted) }) { Ok(__v) => __v, Err(__e) => return Err(From::from(__e)) });
         self.used = self.used.max(offset + len);
         Ok(())
     }
@@ -1530,6 +1637,231 @@ fn flush_release(&mut self, packet_id: u16) -> (r: bool)
         } else {
             false
         }
+    }
+
+fn next_step(&self) -> (r: Option<OutboundStep>)
+    ensures
+        r == next_step_spec(*self),
+{
+        let __arr4 = [true, false]; let mut __i4: usize = 0;
+        while __i4 < 2 
+            invariant
+                __i4 <= 2,
+                __arr4[0] == true && __arr4[1] == false,
+                __i4 >= 1 ==> step_for(*self, true) is None,
+                __i4 >= 2 ==> step_for(*self, false) is None,
+            decreases 2 - __i4
+{
+            let in_progress = __arr4[__i4];
+            let mut __i1: usize = 0;
+        while __i1 < self.pending_control.len() 
+                invariant
+                    __i1 <= self.pending_control@.len(), __i4 < 2, in_progress == __arr4[__i4 as int], __arr4[0] == true && __arr4[1] == false,
+                    __i4 >= 1 ==> step_for(*self, true) is None,
+                    forall|j: int| 0 <= j < __i1 ==> !prio((#[trigger] self.pending_control@[j]).state, in_progress),
+                decreases self.pending_control@.len() - __i1
+{
+            let entry = self.pending_control.at(__i1);
+                if entry.state.matches_priority(in_progress) {
+                    proof { lemma_ctl_idx(self.pending_control@, in_progress, __i1 as int); }
+
+                    return Some(OutboundStep::Control(ControlStep {
+                        action: entry.action,
+                        state: entry.state,
+                    }));
+                }
+                __i1 += 1;
+        }
+            let mut __i2: usize = 0;
+        while __i2 < self.pending_release.len() 
+                invariant
+                    __i2 <= self.pending_release@.len(), __i4 < 2, in_progress == __arr4[__i4 as int], __arr4[0] == true && __arr4[1] == false,
+                    __i4 >= 1 ==> step_for(*self, true) is None,
+                    forall|j: int| 0 <= j < self.pending_control@.len() ==> !prio((#[trigger] self.pending_control@[j]).state, in_progress),
+                    forall|j: int| 0 <= j < __i2 ==> !prio((#[trigger] self.pending_release@[j]).state, in_progress),
+                decreases self.pending_release@.len() - __i2
+{
+            let entry = self.pending_release.at(__i2);
+                if entry.state.matches_priority(in_progress) {
+                    proof { lemma_ctl_idx_none(self.pending_control@, in_progress); lemma_rel_idx(self.pending_release@, in_progress, __i2 as int); }
+
+                    return Some(OutboundStep::Release(ReleaseStep {
+                        packet_id: entry.packet_id,
+                        reason: entry.reason,
+                        state: entry.state,
+                    }));
+                }
+                __i2 += 1;
+        }
+            let mut __i3: usize = 0;
+        while __i3 < self.retained.len() 
+                invariant
+                    __i3 <= self.retained@.len(), __i4 < 2, in_progress == __arr4[__i4 as int], __arr4[0] == true && __arr4[1] == false,
+                    __i4 >= 1 ==> step_for(*self, true) is None,
+                    forall|j: int| 0 <= j < self.pending_control@.len() ==> !prio((#[trigger] self.pending_control@[j]).state, in_progress),
+                    forall|j: int| 0 <= j < self.pending_release@.len() ==> !prio((#[trigger] self.pending_release@[j]).state, in_progress),
+                    forall|j: int| 0 <= j < __i3 ==> !prio((#[trigger] self.retained@[j]).state, in_progress),
+                decreases self.retained@.len() - __i3
+{
+            let entry = self.retained.at(__i3);
+                if entry.state.matches_priority(in_progress) {
+                    proof { lemma_ctl_idx_none(self.pending_control@, in_progress); lemma_rel_idx_none(self.pending_release@, in_progress); lemma_ret_idx(self.retained@, in_progress, __i3 as int); }
+
+                    return Some(OutboundStep::Retained(RetainedStep {
+                        packet_id: entry.packet_id,
+                        offset: entry.offset,
+                        len: entry.len,
+                        state: entry.state,
+                    }));
+                }
+                __i3 += 1;
+        }
+            proof { lemma_ctl_idx_none(self.pending_control@, in_progress); lemma_rel_idx_none(self.pending_release@, in_progress); lemma_ret_idx_none(self.retained@, in_progress); }
+
+            __i4 += 1;
+        }
+        None
+    }
+
+fn arm_replay(&mut self)
+    requires
+        wf(*old(self)),
+    ensures
+        final(self).pending_control@.len() == old(self).pending_control@.len()
+        && forall|i: int| 0 <= i < old(self).pending_control@.len() ==> (#[trigger] final(self).pending_control@[i]) ==
+            fresh_ctl(old(self).pending_control@[i]),
+        final(self).pending_release@.len() == old(self).pending_release@.len()
+        && forall|i: int| 0 <= i < old(self).pending_release@.len() ==> (#[trigger] final(self).pending_release@[i]) ==
+            fresh_rel(old(self).pending_release@[i]),
+        final(self).retained@.len() == old(self).retained@.len()
+        && forall|i: int| 0 <= i < old(self).retained@.len() ==> (#[trigger] final(self).retained@[i]) ==
+            fresh_ret(old(self).retained@[i]),
+        final(self).used == old(self).used && bv(*final(self)).len() == bv(*old(self)).len(),
+        forall|k: int| 0 <= k < bv(*old(self)).len() && !is_first_byte(old(self).retained@, k) ==> #[trigger] bv(*final(self))[k] == bv(*old(self))[k],
+        forall|k: int| 0 <= k < bv(*old(self)).len() && is_first_byte(old(self).retained@, k) ==> #[trigger] bv(*final(self))[k] == bv(*old(self))[k] | 8u8,
+        wf(*final(self)),
+{
+        if !self.has_pending_state() {
+            return;
+        }
+
+        self.mark_retained_dup();
+        let mut __i1: usize = 0;
+        while __i1 < self.pending_control.len() 
+            invariant
+                __i1 <= self.pending_control@.len(),
+                self.pending_control@.len() == old(self).pending_control@.len(),
+                forall|i: int| 0 <= i < __i1 ==> (#[trigger] self.pending_control@[i]) == fresh_ctl(old(self).pending_control@[i]),
+                forall|i: int| __i1 <= i < self.pending_control@.len() ==> (#[trigger] self.pending_control@[i]) == old(self).pending_control@[i],
+                self.pending_release@ == old(self).pending_release@, self.retained@ == old(self).retained@, self.used == old(self).used,
+                wf(*old(self)), bv(*self).len() == bv(*old(self)).len(),
+                forall|k: int| 0 <= k < bv(*old(self)).len() && !is_first_byte(old(self).retained@, k) ==> #[trigger] bv(*self)[k] == bv(*old(self))[k],
+                forall|k: int| 0 <= k < bv(*old(self)).len() && is_first_byte(old(self).retained@, k) ==> #[trigger] bv(*self)[k] == bv(*old(self))[k] | 8u8,
+            decreases self.pending_control@.len() - __i1
+{
+            let entry = self.pending_control.at_mut(__i1);
+            entry.state = SendState::Write { written: 0 };
+            __i1 += 1;
+        }
+        let mut __i2: usize = 0;
+        while __i2 < self.retained.len() 
+            invariant
+                __i2 <= self.retained@.len(),
+                self.retained@.len() == old(self).retained@.len(),
+                forall|i: int| 0 <= i < __i2 ==> (#[trigger] self.retained@[i]) == fresh_ret(old(self).retained@[i]),
+                forall|i: int| __i2 <= i < self.retained@.len() ==> (#[trigger] self.retained@[i]) == old(self).retained@[i],
+                self.pending_control@.len() == old(self).pending_control@.len(),
+                forall|i: int| 0 <= i < old(self).pending_control@.len() ==> (#[trigger] self.pending_control@[i]) == fresh_ctl(old(self).pending_control@[i]),
+                self.pending_release@ == old(self).pending_release@, self.used == old(self).used,
+                wf(*old(self)), bv(*self).len() == bv(*old(self)).len(),
+                forall|k: int| 0 <= k < bv(*old(self)).len() && !is_first_byte(old(self).retained@, k) ==> #[trigger] bv(*self)[k] == bv(*old(self))[k],
+                forall|k: int| 0 <= k < bv(*old(self)).len() && is_first_byte(old(self).retained@, k) ==> #[trigger] bv(*self)[k] == bv(*old(self))[k] | 8u8,
+            decreases self.retained@.len() - __i2
+{
+            let entry = self.retained.at_mut(__i2);
+            entry.state = SendState::Write { written: 0 };
+            __i2 += 1;
+        }
+        let mut __i3: usize = 0;
+        while __i3 < self.pending_release.len() 
+            invariant
+                __i3 <= self.pending_release@.len(),
+                self.pending_release@.len() == old(self).pending_release@.len(),
+                forall|i: int| 0 <= i < __i3 ==> (#[trigger] self.pending_release@[i]) == fresh_rel(old(self).pending_release@[i]),
+                forall|i: int| __i3 <= i < self.pending_release@.len() ==> (#[trigger] self.pending_release@[i]) == old(self).pending_release@[i],
+                self.retained@.len() == old(self).retained@.len(),
+                forall|i: int| 0 <= i < old(self).retained@.len() ==> (#[trigger] self.retained@[i]) == fresh_ret(old(self).retained@[i]),
+                self.pending_control@.len() == old(self).pending_control@.len(),
+                forall|i: int| 0 <= i < old(self).pending_control@.len() ==> (#[trigger] self.pending_control@[i]) == fresh_ctl(old(self).pending_control@[i]),
+                self.used == old(self).used,
+                wf(*old(self)), bv(*self).len() == bv(*old(self)).len(),
+                forall|k: int| 0 <= k < bv(*old(self)).len() && !is_first_byte(old(self).retained@, k) ==> #[trigger] bv(*self)[k] == bv(*old(self))[k],
+                forall|k: int| 0 <= k < bv(*old(self)).len() && is_first_byte(old(self).retained@, k) ==> #[trigger] bv(*self)[k] == bv(*old(self))[k] | 8u8,
+            decreases self.pending_release@.len() - __i3
+{
+            let entry = self.pending_release.at_mut(__i3);
+            entry.state = SendState::Write { written: 0 };
+            __i3 += 1;
+        }
+    
+        proof {
+            let f = self.retained@; let o = old(self).retained@;
+            assert forall|i: int, j: int| 0 <= i < j < f.len() implies (#[trigger] f[i]).offset + f[i].len <= (#[trigger] f[j]).offset by {
+                assert(o[i].offset + o[i].len <= o[j].offset);
+            }
+            assert forall|i: int| 0 <= i < f.len() implies (#[trigger] f[i]).offset + f[i].len <= self.used by {
+                assert(o[i].offset + o[i].len <= old(self).used);
+            }
+        }
+
+}
+
+fn encode_packet<T>(&mut self, packet: &T) -> (r: Result<(usize, usize), ProtocolError>)
+where
+        T: Encodable,
+    requires
+        wf(*old(self)),
+    ensures
+        same_entries(bv(*final(self)), final(self).retained@, bv(*old(self)), old(self).retained@),
+        same_queues(*final(self), *old(self)) && bv(*final(self)).len() == bv(*old(self)).len(),
+        wf(*final(self)) && compacted(*final(self)),
+        r matches Ok((off, len)) ==> final(self).used <= off && off + len <= bv(*final(self)).len() && len >= 2
+            && bv(*final(self)).subrange(off as int, off + len) == packet.enc() && framed(packet.enc()),
+        r matches Err(e) ==> e is Encode,
+{
+        self.compact();
+        proof {
+            lemma_rets_same_entries(bv(*self), self.retained@, bv(*old(self)), old(self).retained@);
+        }
+
+        let start = self.used;
+        let (offset, packet) = (match MqttSerializer::encode_with_offset(&mut self.buf[start..], packet) { Ok(__v) => __v, Err(__e) => return Err(From::from(__e)) });
+        Ok((start + offset, packet.len()))
+    }
+
+fn encode_publish<P: ToPayload, E>(
+        &mut self,
+        header: &PublishHeader<'_>,
+        payload: P,
+    ) -> (r: Result<(usize, usize), PubError<P::Error, E>>)
+    requires
+        wf(*old(self)),
+    ensures
+        same_entries(bv(*final(self)), final(self).retained@, bv(*old(self)), old(self).retained@),
+        same_queues(*final(self), *old(self)) && bv(*final(self)).len() == bv(*old(self)).len(),
+        wf(*final(self)) && compacted(*final(self)),
+        r matches Ok((off, len)) ==> final(self).used <= off && off + len <= bv(*final(self)).len() && len >= 2
+            && bv(*final(self)).subrange(off as int, off + len) == enc_publish(*header, payload) && framed(enc_publish(*header, payload)),
+{
+        self.compact();
+        proof {
+            lemma_rets_same_entries(bv(*self), self.retained@, bv(*old(self)), old(self).retained@);
+        }
+
+        let start = self.used;
+        let (offset, packet) =
+            (match MqttSerializer::encode_publish_with_offset(&mut self.buf[start..], header, payload) { Ok(__v) => __v, Err(__e) => return Err(From::from(__e)) });
+        Ok((start + offset, packet.len()))
     }
 }
 
